@@ -17,8 +17,8 @@ import (
 // snapshot of the current-state answers right after write op k.
 type snap struct {
 	k      int
-	tmin   int64 // smallest commit time of the versions written by op k
-	tmax   int64 // largest commit time of the versions written by op k
+	tmin   int64                      // smallest commit time of the versions written by op k
+	tmax   int64                      // largest commit time of the versions written by op k
 	look   map[string]*kit.Ent        // "id|scope" -> lookup
 	rel    map[string]map[string]bool // "id|pred|inv|scope" -> set
 	skip   map[string]bool            // relation queries excluded by a known shape at snapshot time
